@@ -302,7 +302,11 @@ fn cmd_race(a: &Args) -> i32 {
 
 /// Thread-lifecycle workload (C10, C11). Keys as for `core`.
 fn cmd_life(a: &Args) -> i32 {
-    let p = wl_core::profile(&a.str("profile", "c10"));
+    let mut p = wl_core::profile(&a.str("profile", "c10"));
+    if a.flag("wide") {
+        // up to 8 short-lived threads per round (peak 11 threads alive)
+        p.max_threads = 11;
+    }
     let mode = match a.str("mode", "token").as_str() {
         "token" => Mode::Token,
         "free" => Mode::Free,
